@@ -21,7 +21,7 @@ except Exception as e:
     meta = {"note": "meta.json from the seeding agent unreadable: " + str(e)}
 conf = ""
 logs = ["/tmp/seed/" + l for l in sorted(os.listdir("/tmp/seed")) if l.startswith("confirm") and l.endswith(".log")]
-for cd in ("/tmp/seed/confirm3", "/tmp/seed/confirm4", "/tmp/seed/confirm5"):
+for cd in ("/tmp/seed/confirm3", "/tmp/seed/confirm4", "/tmp/seed/confirm5", "/tmp/seed/confirm6"):
     if os.path.isdir(cd):
         logs += [cd + "/" + l for l in sorted(os.listdir(cd))]
 for log in logs:
@@ -37,7 +37,8 @@ out = {
     "origin": "independent sub-agent given only the property text and a scratch git worktree of /repo (nothing from /verif)" + ("; round 2: additionally required to be correct on all small/ordinary inputs and wrong only on large or rare ones" if R == "2" else "")
               + ("; round 3: required to need something specific to manifest (a multi-step history, a large or rare input, two cooperating edits, an unusual macro invocation, a panic at a particular point)" if R == "3" else "")
               + ("; round 4 (on the tree with all repairs up to a6790b3): a change in the code a MACRO expands to at the call site, or in a rarely used corner of the API, that needs something specific to manifest" if R == "4" else "")
-              + ("; round 5 (on the tree with all repairs up to a6790b3): an interaction of two features, or a difference between const evaluation and run time / an unusual element type" if R == "5" else ""),
+              + ("; round 5 (on the tree with all repairs up to a6790b3): an interaction of two features, or a difference between const evaluation and run time / an unusual element type" if R == "5" else "")
+              + ("; round 6 (tree b7532cf): aimed at the part of the property's code that the second tie covered last (groups BytesPub, Cmp5-7, Rest) or that only the first tie covers (pattern kinds); needs something specific to manifest" if R == "6" else ""),
     "confirmed_by_me": {
         "command": f"ROUND={R} notes/confirm_seed.sh {ID} {k}  (scratch worktree: apply patch; cargo test --workspace --no-fail-fast --offline; run demo; undo; run demo)",
         "result": conf,
